@@ -1449,7 +1449,14 @@ impl<'a> Parser<'a> {
     #[inline]
     fn attach_location_to_error(&mut self, mut err: Error) -> Error {
         if err.line().is_none() {
-            err.set_filename_and_span(self.filename(), self.stream.last_span())
+            let mut span = self.stream.last_span();
+            if span == Span::default() {
+                // nothing was consumed yet (an empty expression): point at the
+                // start of the source instead of reporting no line at all.
+                span.start_line = 1;
+                span.end_line = 1;
+            }
+            err.set_filename_and_span(self.filename(), span)
         }
         err
     }
